@@ -119,7 +119,8 @@ def oneshot(nmax, maxblocks):
         m = M().mciipm
         n = sym_int('n', 0, nmax)
         d = Source('data', 'b', n)
-        rp = {'kind': 'oneshot', 'args': {'n': ev(n)}}
+        def rp():
+            return {'kind': 'oneshot', 'args': {'n': ev(n), 'data': concretize(d.rope(), ev) if ev(n) else b''}}
         core.set_fallback(rp, 'C04/concretised')
         fin_ = RopeFile(d.rope())
         fout = RopeFile()
@@ -148,7 +149,7 @@ def oneshot(nmax, maxblocks):
         require(s_or(s_eq(extra, 0), s_eq(extra, 1014)), 'outputs differ by more than one trailing block', key='C04/oneshot-vs-stream', replay=rp)
         if not s_eq(extra, 0):
             req_eq(sl(S, LO, LS), mk('b', [Fill(PAD, 1014)]), 'the extra trailing block is not all fill', key='C04/oneshot-vs-stream', replay=rp)
-        return {'sample': {'n': ev(n), 'oneshot_size': ev(LO), 'stream_size': ev(LS)}, 'replay': rp}
+        return {'sample': {'n': ev(n), 'oneshot_size': ev(LO), 'stream_size': ev(LS)}, 'replay': rp()}
     return h
 
 
